@@ -16,6 +16,9 @@ pub fn def_use(
 
     for location in rd.keys() {
         du.entry(location.clone()).or_default();
+        // The definitions used are those reaching the location, not the state
+        // after it (see use_def).
+        let reaching = reaching_definitions::reaching_in(function, &rd, location)?;
         match location.function_location().apply(function).unwrap() {
             il::RefFunctionLocation::Instruction(_, instruction) => instruction
                 .operation()
@@ -23,7 +26,7 @@ pub fn def_use(
                 .unwrap_or_default()
                 .into_iter()
                 .for_each(|scalar_read| {
-                    rd[location].locations().iter().for_each(|rd| {
+                    reaching.locations().iter().for_each(|rd| {
                         rd.function_location()
                             .apply(function)
                             .unwrap()
@@ -43,7 +46,7 @@ pub fn def_use(
             il::RefFunctionLocation::Edge(edge) => {
                 if let Some(condition) = edge.condition() {
                     condition.scalars().into_iter().for_each(|scalar_read| {
-                        rd[location].locations().iter().for_each(|rd| {
+                        reaching.locations().iter().for_each(|rd| {
                             if let Some(scalars_written) = rd
                                 .function_location()
                                 .apply(function)
